@@ -56,6 +56,7 @@ def gen_table(rnd, poly=None, noff=None, n=None):
         "units": {k: rnd.choice(UNIT_CHOICES[k]) for k in cols},
         "dtype": "f4" if rnd.random() < 0.15 else "f8",
         "t_ref": rnd.choice([None, 55555.5, 58123.25]),
+        "t_ref_scale": rnd.choice(["tcb", "tcb", "utc", "tdb"]),  # the reference epoch is an instant, whatever scale the user's Time has
         "poly_trend": poly,
         "n_offsets": noff,
         "gen_seed": rnd.getrandbits(40),
@@ -223,6 +224,23 @@ def generate(seed, tier="quick"):
 # ---------------------------------------------------------------------------------------------
 
 
+_TCB = {}
+
+
+def tref_tcb(spec):
+    """The reference epoch of a table spec as a TCB MJD (the instant; what read-back is compared with)."""
+    if spec.get("t_ref") is None:
+        return None
+    if spec.get("from_sampler") or spec.get("t_ref_scale", "tcb") == "tcb":
+        return float(spec["t_ref"])
+    key = (spec["t_ref"], spec["t_ref_scale"])
+    if key not in _TCB:
+        from astropy.time import Time
+
+        _TCB[key] = float(Time(spec["t_ref"], format="mjd", scale=spec["t_ref_scale"]).tcb.mjd)
+    return _TCB[key]
+
+
 def build_table(spec):
     import astropy.units as u
     from astropy.time import Time
@@ -231,7 +249,7 @@ def build_table(spec):
 
     g = tape.np_sub(spec["gen_seed"], "table")
     dt = np.float32 if spec["dtype"] == "f4" else np.float64
-    t_ref = None if spec["t_ref"] is None else Time(spec["t_ref"], format="mjd", scale="tcb")
+    t_ref = None if spec["t_ref"] is None else Time(spec["t_ref"], format="mjd", scale=spec.get("t_ref_scale", "tcb"))
     s = tj.JokerSamples(t_ref=t_ref, poly_trend=spec["poly_trend"], n_offsets=spec["n_offsets"])
     data = {}
     for c in spec["cols"]:
@@ -252,7 +270,7 @@ class FileModel:
         self.cols = list(spec["cols"])
         self.units = dict(spec["units"])
         self.dtype = spec["dtype"]
-        self.t_ref = spec["t_ref"]
+        self.t_ref = tref_tcb(spec)
         self.poly_trend = spec["poly_trend"]
         self.n_offsets = spec["n_offsets"]
         self.data = {k: np.array(v) for k, v in data.items()}
@@ -281,7 +299,7 @@ def classify(m, t):
         must.append("extra-col" if set(t["cols"]) > set(m.cols) else ("missing-col" if set(t["cols"]) < set(m.cols) else "other-cols"))
     if t["poly_trend"] != m.poly_trend or t["n_offsets"] != m.n_offsets:
         must.append("polytrend-conflict")
-    if t["t_ref"] is not None and m.t_ref is not None and t["t_ref"] != m.t_ref:
+    if t["t_ref"] is not None and m.t_ref is not None and abs(tref_tcb(t) - m.t_ref) > 1e-9:
         must.append("tref-conflict")
     if (t["t_ref"] is None) != (m.t_ref is None):
         unspec.append("tref-none")
